@@ -48,6 +48,14 @@ def looser_reg(pol):
     return out
 
 
+def with_algs(pol, algs):
+    return impl.RegPolicy(challenge=pol.challenge, rp_id=pol.rp_id, origin=pol.origin, require_up=pol.require_up, require_uv=pol.require_uv, algs=algs,
+                          roots=pol.roots, builtin={f: v for f, v in pol.substitute.items() if v}, now=pol.now)
+
+
+ALG_CHAIN = [[], [-259], [-259, -8], [-259, -8, -7, -257], [-7, -8, -36, -37, -38, -39, -257, -258, -259, -65535]]
+
+
 def run(tier, seed):
     chk = fw.Check("C20", tier, seed)
     br, ob = fw.standard_prelude(chk, with_coqchk=(tier == "thorough"))
@@ -85,11 +93,13 @@ def run(tier, seed):
             outs["record-bytes"] = va(pol, rec(bytes))
             outs["record-subclass"] = va(pol, rec(MyBytes), MyBytes)
             outs["record-memoryview"] = va(pol, rec(memoryview), memoryview)
+            wmv = lambda b: memoryview(bytearray(b))            # a writable view, as buffer pools / DB drivers hand out
+            outs["record-memoryview-writable"] = va(pol, rec(wmv), wmv)
         chk.evals += len(outs)
         ref = outs["dict"]
         for k, v in outs.items():
             same = (v == ref) or (v.startswith("ERR") and ref.startswith("ERR") and a.typ == "public-key")
-            if k == "record-memoryview" and ref.startswith("OK") and v.startswith("OK"):
+            if k.startswith("record-memoryview") and ref.startswith("OK") and v.startswith("OK"):
                 same = v.split()[2:] == ref.split()[2:]      # credential_id echoes the object it was given
             if not same:
                 chk.violation(f"input form {k} gives another outcome than the dict form ({label})", f"forms {k} {label.split('+')[0]}",
@@ -123,6 +133,8 @@ def run(tier, seed):
             outs["record-bytes"] = vr(pol, rec(bytes))
             outs["record-subclass"] = vr(pol, rec(MyBytes), MyBytes)
             outs["record-memoryview"] = vr(pol, rec(memoryview), memoryview)
+            wmv = lambda b: memoryview(bytearray(b))
+            outs["record-memoryview-writable"] = vr(pol, rec(wmv), wmv)
         chk.evals += len(outs)
         for k, v in outs.items():
             same = (v == base) or (v.startswith("ERR") and base.startswith("ERR"))
@@ -140,6 +152,18 @@ def run(tier, seed):
                 if not fw.exn_refines(m2, o2):
                     chk.diverge("Model.verify_reg", f"{label}/{lname}: model {m2[:80]} impl {o2[:80]}", {"label": label, "policy": pol2.describe(), "credential": d0})
             chk.seen((label, lname))
+        # an ascending chain of allowed-algorithm lists, starting from the empty list (which allows nothing)
+        if label.startswith(("baseline", "policy-lattice")) or rng.random() < 0.15:
+            seen_ok = None
+            for algs in ALG_CHAIN:
+                o = vr(with_algs(pol, algs), d)
+                chk.evals += 1
+                if seen_ok is not None and o != seen_ok[1]:
+                    chk.violation(f"accepted with allowed algorithms {seen_ok[0]} but not (equally) with the superset {algs} ({label})", f"mono-reg algs-chain {label.split('+')[0].split('/')[0]}",
+                                  {"entry": "verify_registration_response", "label": label, "strict_algs": seen_ok[0], "looser_algs": algs, "strict_outcome": seen_ok[1][:200], "looser_outcome": o[:200], "credential": d0})
+                    break
+                if o.startswith("OK") and seen_ok is None:
+                    seen_ok = (algs, o)
         if d != d0:
             chk.violation("verification modified the caller's credential dict", f"dict-mutated-reg {label.split('/')[0]}", {"before": d0, "after": repr(d)[:500]})
         chk.count("reg:" + ("accepted" if base.startswith("OK") else "rejected"))
